@@ -143,8 +143,10 @@ class InsertFunctionDeclaration(RewritePattern):
             assert module_op
             module_op = module_op.parent
 
-        # Insert FuncOp
-        SymbolTable.insert_or_update(module_op, func_op)
+        # Insert FuncOp, unless the module declares it already (e.g. it went through this pass before):
+        # replacing the declaration would detach an op that the pattern walker may still visit
+        if SymbolTable.lookup_symbol(module_op, "snax_cluster_core_idx") is None:
+            SymbolTable.insert_or_update(module_op, func_op)
 
 
 @dataclass(frozen=True)
